@@ -1,2 +1,6 @@
 import BufrProps.C04
+#print axioms Bufr.C04.C04_const_column
+#print axioms Bufr.C04.C04_listed_column
+#print axioms Bufr.C04.C04_listed_column_spec
+#print axioms Bufr.C04.C04_element
 #print axioms Bufr.C04.C04_minNbinc_pos
